@@ -28,6 +28,16 @@ CHECKS = {
         note="Trusts httpx's incremental text/line decoders as installed; reference oracle restricted to payloads without exotic str.splitlines() separators and without leading whitespace; exhaustive only for streams <= 13 bytes.",
         design="§5 C18",
     ),
+    "C16": dict(
+        category="exploration",
+        technique="Hypothesis-built dataclass type trees (make_dataclass, random bijective Meta key maps) x conforming JSON; round-trip laws both directions, differential against a fresh copy of the module (history independence), corrupted-leaf error reporting, serialiser on generated instance graphs (chain/self-loop/ring/diamond/random; two annotation styles) against an independent reference",
+        text="Each case is a history of up to 5 differently shaped, possibly same-named dataclass types run through one fresh copy of "
+             "the working tree's cattrs_converter.py/utils.py; every result must satisfy decode.encode = id, encode.decode = id, equal "
+             "the result of a module copy that has seen nothing else, and failures must be ValueErrors naming a field on the path. The "
+             "serialiser must terminate and return null-free JSON on cyclic instance graphs. Random search, sizes bounded (depth <= 4).",
+        note="Unions are left to C14; floats finite; key maps bijective; only the two module files of the working tree are exercised (C12 ties them to every client). One open finding (C16-F01) is matched by its exact signature (annotation style included).",
+        design="§5 C16",
+    ),
     "C17": dict(
         category="exploration",
         technique="exhaustive enumeration of ordered plugin selections (<=3 of 10) x header-overlap x params/cookies presence, plus Hypothesis cases (nested CompositeAuth, case variants, request histories on one transport); dict-algebra reference model of the wire request",
